@@ -7,6 +7,11 @@
 #ifndef PDU_MAXA
 #define PDU_MAXA 70000
 #endif
+#ifdef POFF
+/* bounded by position: the header space is 6 bytes, the token empty (the editor never looks at either) and the named option
+ * starts POFF bytes into the options region - every offset is then a constant for cbmc; lengths, delta, payload, sizes stay symbolic */
+#define VH_PDU_FIX max_hdr_size = 6; tok_len = 0
+#endif
 #include "spec/c_option.h"
 #include "spec/c_pdu.h"
 size_t G_opt_off;       /* ghost: offset of the named option from pdu->token (stable across realloc) */
@@ -15,16 +20,28 @@ __CPROVER_requires(__CPROVER_r_ok(pdu, sizeof(*pdu)))
 __CPROVER_assigns()
 __CPROVER_ensures(__CPROVER_return_value == pdu->token + G_opt_off)
 ;
+/* coap_update_option falls back to coap_insert_option when the option is absent: not in this unit (the iterator contract returns
+ * the option), and the real body is mutually recursive with coap_add_option_internal, which symex would unwind without bound */
+size_t coap_insert_option_unreached_contract(coap_pdu_t *pdu, coap_option_num_t number, size_t len, const uint8_t *data)
+__CPROVER_requires(0) __CPROVER_assigns() __CPROVER_ensures(1);
 #include "src/coap_pdu.c"
 #include "src/coap_option.c"
 #include "src/coap_encode.c"
+#ifdef PDU_FIXED_BLOCK
+#define ALLOC_CAP PDU_FIXED_BLOCK        /* bounded tier: every block (also what realloc returns) has this constant size */
+#include "stubs/alloc_bounded.h"
+#else
 #include "stubs/base.h"
+#endif
 #include "stubs/mem_havoc.h"
 void harness(void) {
   HARNESS_PDU(pdu);
   ASSUME(max_size != 0);
   pdu->hdr_size = 0; pdu->session = NULL;
   IN_SCALAR(uint16_t, number); IN_SCALAR(size_t, len); IN_SCALAR(size_t, p_off);
+#ifdef POFF
+  p_off = POFF;
+#endif
   ASSUME(len <= 1034);
   IN_BUF(val, len, 16);
   size_t opt_end = data_off ? data_off - 1 : used_size;
